@@ -421,7 +421,7 @@ def enumerate_cases(ctx):
     ctx.scope('every Merger channel/template writer separately on real directories: 1..3 probes, every combination of channel counts '
               '1..3 and template counts 1..3 per probe (3 probes: %s), channel maps identity/reversed/one-based/rotated/gapped, '
               '4 x-layouts incl. single columns at x=0 and x=5, signed/unsigned map and table dtypes, matrices in all/some/none of '
-              'the probes, raw files wider than the map' % ('a seeded eighth of the 729 combinations' if quick else 'all 729'))
+              'the probes, raw files wider than the map' % ('a seeded tenth of the 729 combinations' if quick else 'all 729'))
     for a in pairs:
         run_parts([a])
     for a in pairs:
@@ -430,7 +430,7 @@ def enumerate_cases(ctx):
     for a in pairs:
         for b in pairs:
             for c in pairs:
-                if quick and R.randrange(8):
+                if quick and R.randrange(10):
                     continue
                 run_parts([a, b, c])
     # the input classes where a cumulative offset and the convention actually used by the code coincide: keeps the
